@@ -139,6 +139,15 @@ class Journal(object):
 # ------------------------------------------------------------------------------------------------------
 # data handlers
 
+class DescriptorProperty(property):
+    """A user's subclass of property whose __get__ does something of its own with the getter's result (freezing / converting it)."""
+
+    def __get__(self, obj, objtype=None):
+        if obj is None:
+            return self
+        return {'by_descriptor': property.__get__(self, obj, objtype)}
+
+
 def make_handlers():
     from playback.interception.input_interception import InputInterceptionDataHandler
     from playback.interception.output_interception import OutputInterceptionDataHandler
@@ -227,7 +236,7 @@ def gen_program(rng, **over):
         if o['statics'] and r < 0.25:
             d['kind'] = 'static'
         elif o['properties'] and r < 0.4 and d['resolver'] is None:
-            d['kind'] = rng.choice(['property_outer', 'property_inner'])
+            d['kind'] = rng.choice(['property_outer', 'property_inner', 'property_inner_sub'])
             d['nparams'] = 0
         if o['capture'] and d['nparams'] > 0 and d['kind'] in ('instance', 'static') and rng.random() < 0.5:
             c = rng.random()
@@ -671,6 +680,8 @@ class Built(object):
                 ns[d['name']] = property(deco(f))
             elif d['kind'] == 'property_inner':
                 ns[d['name']] = deco(property(f)) if rec is not None else property(f)
+            elif d['kind'] == 'property_inner_sub':
+                ns[d['name']] = deco(DescriptorProperty(f)) if rec is not None else DescriptorProperty(f)
             else:
                 ns[d['name']] = deco(f)
         for d in prog['outputs']:
